@@ -267,7 +267,13 @@ func (d *db) rebuildLog(logNum fileNum) (err error) {
 	return herr
 }
 
+// saveIndex persists the index of the current log file. The log file is
+// fsynced first, not all records are fsynced when they are written and the
+// persisted index must never point to records that can still be lost.
 func (d *db) saveIndex() error {
+	if err := d.mu.logFile.Sync(); err != nil {
+		return err
+	}
 	return d.mu.nodeStates.save(d.dirname, d.dataDir, d.mu.logNum, d.opts.FS)
 }
 
